@@ -467,9 +467,35 @@ class Monitor:
         return r
 
     # -- C02 at a record / at return
-    def check_c02(self, space, when):
-        if self.cfg.get('hook') == 'move' or self.cfg.get('prelude'):
+    def check_c02_history(self, space, when):
+        """In a continued space the best agent of the earlier tasks legitimately survives: the best fitness is the minimum of the
+        inherited best fitness and of everything the objective returned in this task, with the matching position (strict improvement)."""
+        if self.first_bad is not None or getattr(self, 'best0', None) is None:
             return
+        b0f, b0p = self.best0
+        b = space.best_agent
+        bf = float(b.fit)
+        if not (b0f == b0f) or not (bf == bf):
+            return
+        improved = self.minval is not None and self.minval < b0f
+        want = self.minval if improved else b0f
+        if bf != want:
+            self.v('C02', 'history:best-fit-not-min', 'continued space: best fitness %r differs from min(inherited best %r, smallest value returned in this task %r) at %s'
+                   % (bf, b0f, self.minval, when), bf, want)
+            return
+        if improved:
+            if not any(eqarr(r['copy'], b.position) for r in self.minargs):
+                self.v('C02', 'history:best-position-not-an-argmin', 'continued space: best position is not an argument at which the objective returned the best fitness (%s)' % when,
+                       b.position, [r['copy'].tolist() for r in self.minargs[:3]])
+        elif not eqarr(b0p, b.position):
+            self.v('C02', 'history:inherited-best-position-changed', 'continued space: nothing better than the inherited best was evaluated, but the best position changed (%s)' % when,
+                   b.position, b0p)
+
+    def check_c02(self, space, when):
+        if self.cfg.get('hook') == 'move':
+            return
+        if self.cfg.get('prelude'):
+            return self.check_c02_history(space, when)
         if self.first_bad is not None:
             self.skip('C02/C20: non-finite argument or value seen (reported under C01)')
             return
@@ -644,6 +670,11 @@ def execute(cfg, light=False, seed=None):
         try:
             space, opt, fn = build(cfg, mon.fwrap, pre_space)
             mon.space, mon.opt, mon.fn = space, opt, fn
+            if cfg.get('prelude'):
+                try:
+                    mon.best0 = (float(space.best_agent.fit), np.array(space.best_agent.position, copy=True))
+                except Exception:  # noqa: BLE001
+                    mon.best0 = None
             mon.hpn = hp_names(opt)
             mon.hp0 = {k: getattr(opt, k) for k in mon.hpn}
             task = Opytimizer(space=space, optimizer=opt, function=fn)
@@ -964,7 +995,8 @@ def final_checks(mon):
     mon.check_population(sp, 'return')
     mon.check_best_feasible(sp, 'return')
     if mon.cfg.get('prelude'):
-        # C02/C04/C20 speak about one task on a fresh space (the best of an earlier task legitimately survives)
+        # C04/C20 and the plain C02 oracle speak about one task on a fresh space; C02 has a history form (inherited best)
+        mon.check_c02(sp, 'return')
         check_c01_args(mon)
         return
     mon.check_c02(sp, 'return')
@@ -1079,7 +1111,7 @@ def run_task(cfg):
         # a key that names its cause site (`...@site`: NaN produced by the observed task's own arithmetic) identifies the same
         # defect as in a single task; everything else is specific to the history and is keyed by it
         tag = 'after-%s:' % '+'.join(p['optimizer'] for p in cfg['prelude'])
-        viol = [dict(v, key=v['key'] if '@' in v['key'] else tag + v['key']) for v in viol if v['property'] in ('C01', 'C07', 'C12')]
+        viol = [dict(v, key=v['key'] if '@' in v['key'] else tag + v['key']) for v in viol if v['property'] in ('C01', 'C02', 'C07', 'C12')]
     stats = {'status': mon.outcome['status'], 'n_evals': len(mon.evals), 'n_hooks': len(mon.hooks), 'n_dumps': len(mon.dumps),
              'n_uniform': getattr(mon, 'draws', None) and mon.draws.n_uniform, 'n_normal': getattr(mon, 'draws', None) and mon.draws.n_normal,
              'n_choice': getattr(mon, 'draws', None) and mon.draws.n_choice, 'clip_agent': mon.n_clip_agent, 'clip_space': mon.n_clip_space,
